@@ -122,7 +122,7 @@ func init() {
 		Floor: 5, MustExist: true, Run: runR026,
 	})
 	register(&Rule{
-		ID: "R07.1", Props: []string{"C07", "C08"}, Engine: "own + guard + order",
+		ID: "R07.1", Props: []string{"C07", "C08", "C04"}, Engine: "own + guard + order",
 		Text:  "wake-up channels: notificationChannel.channel/isBlocking are written only by newNotificationChannel, block and unblock; close() of the channel is on the isBlocking edge and followed by isBlocking=false on every path; block() re-creates only when not blocking; no other close of these channels; every append to epochHashSeeds (outside the constructor) is followed by blockPutWakeup.unblock() and every append to blocksToRelease by blockReleaseWakeup.unblock() before the function returns; block() is called only when nothing is pending (synchronized epochs == len(epochHashSeeds), resp. len(blocksToRelease) == 0)",
 		Floor: 8, MustExist: true, Run: runR071,
 	})
